@@ -41,11 +41,26 @@ def load_variants(only: str | None = None) -> list[dict]:
                 if only and only not in v.get("properties", [v.get("property")]):
                     continue
                 out.append(v)
+    # seeded changes written by independent sub-agents (kept under /verif/seeded/<id>/patch.diff)
+    sd = os.path.join(HERE, "seeded")
+    if os.path.isdir(sd):
+        for name in sorted(os.listdir(sd)):
+            pf = os.path.join(sd, name, "patch.diff")
+            if not os.path.isfile(pf):
+                continue
+            prop = name.split("-")[0]
+            if only and only != prop:
+                continue
+            out.append({"id": f"seeded-{name}", "kind": "mutant", "property": prop, "expect_rule": None, "patch": pf, "source": "seeded"})
     return out
 
 
 def apply_variant(root: str, v: dict, dest: str) -> None:
     shutil.copytree(os.path.join(root, "src"), os.path.join(dest, "src"), ignore=shutil.ignore_patterns("__pycache__", "*.pyc"))
+    if v.get("patch"):
+        r = subprocess.run(["patch", "-p1", "-s", "--no-backup-if-mismatch", "-i", v["patch"]], cwd=dest, capture_output=True, text=True)
+        if r.returncode != 0:
+            raise RuntimeError(f"variant {v['id']}: patch does not apply to the current tree")
     for cmd in v.get("cmds", []):
         r = subprocess.run(cmd, shell=True, cwd=dest, capture_output=True, text=True)
         if r.returncode != 0:
@@ -66,7 +81,7 @@ def apply_variant(root: str, v: dict, dest: str) -> None:
             compile(f.read(), e["file"], "exec")
 
 
-def run_variant(root: str, v: dict) -> dict:
+def run_variant(root: str, v: dict, only_prop: str | None = None) -> dict:
     tmp = tempfile.mkdtemp(prefix="yawsa_selftest_")
     t0 = time.time()
     try:
@@ -75,6 +90,8 @@ def run_variant(root: str, v: dict) -> dict:
         except RuntimeError as err:
             return {"id": v["id"], "status": "stale", "detail": str(err)}
         props = v.get("properties") or [v["property"]]
+        if only_prop and only_prop in props and v["kind"] == "refactor":
+            props = [only_prop]  # a property's thorough run only needs its own verdict on the refactor
         outs = {}
         for p in props:
             r = subprocess.run(
@@ -99,7 +116,11 @@ def run_variant(root: str, v: dict) -> dict:
         shutil.rmtree(tmp, ignore_errors=True)
 
 
+LAST_SUMMARY: dict = {}
+
+
 def run_selftest(root: str, only: str | None = None, jobs: int = 8, quiet: bool = False) -> int:
+    LAST_SUMMARY.clear()
     if os.environ.get("YAWSA_SELFTEST_CHILD"):
         return 0
     variants = load_variants(only)
@@ -112,11 +133,22 @@ def run_selftest(root: str, only: str | None = None, jobs: int = 8, quiet: bool 
 
     random.Random(seed).shuffle(variants)
     with ThreadPoolExecutor(max_workers=max(1, jobs)) as ex:
-        results = list(ex.map(lambda v: run_variant(root, v), variants))
+        results = list(ex.map(lambda v: run_variant(root, v, only), variants))
     bad = [r for r in results if r["status"] == "FAIL"]
     stale = [r for r in results if r["status"] == "stale"]
     for r in sorted(results, key=lambda r: r["id"]):
         if not quiet or r["status"] != "ok":
             print(f"selftest {r['status']:5s} {r['id']} {r.get('detail', '')}")
     print(f"selftest: {len(results)} variants, {len(results) - len(bad) - len(stale)} ok, {len(bad)} failed, {len(stale)} stale (anchor text no longer present)")
+    kinds = {v["id"]: v["kind"] for v in variants}
+    LAST_SUMMARY.update(
+        {
+            "variants": len(results),
+            "mutants_reported": sum(1 for r in results if r["status"] == "ok" and kinds[r["id"]] == "mutant"),
+            "refactors_silent": sum(1 for r in results if r["status"] == "ok" and kinds[r["id"]] == "refactor"),
+            "failed": [r["id"] for r in bad],
+            "stale": [r["id"] for r in stale],
+            "examples": sorted(r["id"] for r in results if r["status"] == "ok")[:8],
+        }
+    )
     return 1 if bad else 0
